@@ -1,0 +1,27 @@
+//go:build verif
+
+// Contracts for the Vortex Merkle tree (comment-only). Layer "opaque Hash": hashes are values of an
+// uninterpreted sort; the compression function is an uninterpreted function of its two arguments
+// (collision resistance is NOT assumed: the contract says "accepts iff the recomputed fold equals the root").
+
+package vortex
+
+//@ func CompressPoseidon2
+//@ layer opaque Hash
+//@ assumed pure function of its two arguments (deterministic; reads only the fixed permutation parameters)
+//@ ensures[value] result == uf_compress(a, b)
+//@ end
+
+//@ func MerkleProof.Verify
+//@ layer opaque Hash
+//@ smt (declare-sort O_Hash 0)
+//@ smt (declare-fun compress (O_Hash O_Hash) O_Hash)
+//@ smt (define-fun-rec shr ((x Int) (k Int)) Int (ite (<= k 0) x (div (shr x (- k 1)) 2)))
+//@ smt (define-fun-rec pow2 ((k Int)) Int (ite (<= k 0) 1 (* 2 (pow2 (- k 1)))))
+//@ smt (define-fun-rec fold ((leaf O_Hash) (proof (Array Int O_Hash)) (i Int) (k Int)) O_Hash (ite (<= k 0) leaf (ite (= (mod (shr i (- k 1)) 2) 1) (compress (select proof (- k 1)) (fold leaf proof i (- k 1))) (compress (fold leaf proof i (- k 1)) (select proof (- k 1))))))
+//@ smt-fun fold O_Hash
+//@ loop 0
+//@ + invariant[fold] curNode == uf_fold(leaf, proof, i, rangeindex+1) && parentPos == ufint_shr(i, rangeindex+1) && -1 <= rangeindex && rangeindex < len(proof)
+//@ ensures[accept] isnil(result) == (uf_fold(leaf, proof, i, len(proof)) == root && ufint_shr(i, len(proof)) == 0)
+//@ modifies nothing
+//@ end
